@@ -117,5 +117,23 @@ end
 /-- The forest with the text nodes in `S` deleted; nothing else changes. -/
 def pruned (f : Forest) (S : Nat → Bool) : Forest := { f with roots := pruneTextKids S f.roots }
 
+/-! ### closed examples used by `Props/C18` -/
+
+/-- `<a xml:space="default">·<b xml:space="preserve">·</b>x<c>·<d/>\n</c></a>` (· = space). -/
+def exampleForest : Forest :=
+  { roots := [.node 0 (.element 2) [
+      .node 1 (.attribute 0 ['d','e','f','a','u','l','t']) [],
+      .node 2 (.text [' ']) [],
+      .node 3 (.element 3) [.node 4 (.attribute 0 ['p','r','e','s','e','r','v','e']) [], .node 5 (.text [' ']) []],
+      .node 6 (.text ['x']) [],
+      .node 7 (.element 4) [.node 8 (.text [' ']) [], .node 9 (.element 5) [], .node 10 (.text ['\n']) []]]],
+    next := 11 }
+
+/-- Three adjacent whitespace-only text nodes (built while consolidation was off, consolidation
+    on again): the boundary of C18_frame. -/
+def adjacentWitness : Forest :=
+  { roots := [.node 0 (.element 2) [.node 1 (.text [' ']) [], .node 2 (.text ['\n']) [], .node 3 (.text ['\t']) []]],
+    next := 4, everOff := true }
+
 end Fws
 end XotModel
